@@ -154,10 +154,15 @@ namespace TAO_PEGTL_NAMESPACE
          if( !in.empty() ) {
             const char c = in.peek_char();
             if( is_digit( c ) ) {
-               in.bump_in_this_line();
                if( c == '0' ) {
-                  return in.empty() || ( !is_digit( in.peek_char() ) );
+                  // Look ahead before consuming: a simple match() must not consume input when it fails.
+                  if( ( in.size( 2 ) < 2 ) || ( !is_digit( in.peek_char( 1 ) ) ) ) {
+                     in.bump_in_this_line();
+                     return true;
+                  }
+                  return false;
                }
+               in.bump_in_this_line();
                while( ( !in.empty() ) && is_digit( in.peek_char() ) ) {
                   in.bump_in_this_line();
                }
@@ -178,8 +183,11 @@ namespace TAO_PEGTL_NAMESPACE
             char c = in.peek_char();
             if( is_digit( c ) ) {
                if( c == '0' ) {
-                  in.bump_in_this_line();
-                  return in.empty() || ( !is_digit( in.peek_char() ) );
+                  if( ( in.size( 2 ) < 2 ) || ( !is_digit( in.peek_char( 1 ) ) ) ) {
+                     in.bump_in_this_line();
+                     return true;
+                  }
+                  return false;
                }
                do {
                   if( !accumulate_digit< Unsigned, Maximum >( st, c ) ) {
@@ -384,7 +392,7 @@ namespace TAO_PEGTL_NAMESPACE
       template< typename ParseInput >
       [[nodiscard]] static bool match( ParseInput& in ) noexcept( noexcept( in.empty() ) )
       {
-         return parse< signed_rule_new >( in );  // Does not check for any overflow.
+         return parse< signed_rule_new, nothing, normal, apply_mode::nothing, rewind_mode::required >( in );  // Does not check for any overflow.
       }
    };
 
@@ -417,7 +425,7 @@ namespace TAO_PEGTL_NAMESPACE
                 typename... States >
       [[nodiscard]] static auto match( ParseInput& in, States&&... /*unused*/ ) noexcept( noexcept( in.empty() ) ) -> std::enable_if_t< A == apply_mode::nothing, bool >
       {
-         return parse< signed_rule_new >( in );  // Does not check for any overflow.
+         return parse< signed_rule_new, nothing, normal, apply_mode::nothing, M >( in );  // Does not check for any overflow.
       }
 
       template< apply_mode A,
